@@ -31,6 +31,8 @@ ADDR = {
     "a3": ("192.0.2.3", 30490),
     "mc": MC,
 }
+ADDR.update({"e1": ("192.0.2.11", 40001), "e2": ("192.0.2.12", 40002), "e3": ("2001:db8::13", 40003),
+             "e4": ("192.0.2.14", 40004)})
 RADDR = {v: k for k, v in ADDR.items()}
 RADDR[None] = "mc"
 
